@@ -292,6 +292,37 @@ class DlmsConnection:
 
     def next_event(self):
         """
+        Returns the next APDU in the buffer. When the data is refused (not possible to
+        decode, fails authentication, old invocation counter, not allowed in the
+        current state) the exception is raised and the connection is left as it was
+        before the data was received.
+        """
+        before = (
+            self.state.current_state,
+            self.meter_invocation_counter,
+            self.meter_system_title,
+            self.authentication_method,
+            self.meter_to_client_challenge,
+            self.conformance,
+            self.max_pdu_size,
+        )
+        try:
+            return self._next_event()
+        except Exception:
+            (
+                self.state.current_state,
+                self.meter_invocation_counter,
+                self.meter_system_title,
+                self.authentication_method,
+                self.meter_to_client_challenge,
+                self.conformance,
+                self.max_pdu_size,
+            ) = before
+            self.clear_buffer()
+            raise
+
+    def _next_event(self):
+        """
         Will parse the buffer into an APDU. In lower levels we need the case to get more
         data. But this is not needed in the DLMS connections as it is the lower layers
         responsibility to make sure the data is complete before handing the control
